@@ -82,15 +82,29 @@ impl RefTable {
     }
 
     /// Create a clone that covers at least `at_least_index`
-    pub fn clone_and_grow(&self, clusters: usize, cluster_size: usize, bs: usize) -> Self {
+    ///
+    /// `clusters` is the size of the table on disk. If the table in ram is
+    /// shorter than that and the index is inside the on-disk table, the clone
+    /// keeps its offset (nothing has to move); otherwise the clone has no
+    /// offset yet and is at least one cluster bigger than the on-disk table:
+    /// the caller has to relocate it.
+    pub fn clone_and_grow(&self, at_least_index: usize, clusters: usize, cluster_size: usize) -> Self {
         let entry_size = core::mem::size_of::<RefTableEntry>();
         let ram_size = self.data.len() * entry_size;
+        let disk_size = clusters * cluster_size;
+        let needed = (at_least_index + 1) * entry_size;
 
         //table in ram may not reach end of reftable in disk
-        let (new_size, new_off) = if ram_size + entry_size < clusters * cluster_size {
-            (ram_size + entry_size, self.offset)
+        let (new_size, new_off) = if ram_size < disk_size && needed <= disk_size {
+            (disk_size, self.offset)
         } else {
-            (clusters * cluster_size + bs, None)
+            (
+                std::cmp::max(
+                    needed.div_ceil(cluster_size) * cluster_size,
+                    disk_size + cluster_size,
+                ),
+                None,
+            )
         };
 
         let mut new_data = Qcow2IoBuf::<RefTableEntry>::new(new_size);
